@@ -6,6 +6,8 @@
 // flavour (4/8/8) and for the default counts (16/128/128).
 //
 // Families (--family)
+// Key pool: 448 (sign only), 672, 704 bit x {with, without proof} x 1 seed (quick) / 4 seeds (thorough); thorough adds
+// one 1024-bit key with proof and one 2048-bit key without.
 //   roundtrip  every key x message lengths 0..130 and 4096 (quick: 0..40, 63..66, 130, 4096) x the "one of four roots" draw
 //              steered to 0,1,2,3 on identical padding coins (the four signatures are the four roots of one square) x
 //              first padding salt steered to {default, 00.., FF..}; verification under the public key / the secret key /
@@ -23,7 +25,9 @@
 //              box 0..S+1 per stage; default counts: S-1,S,S+1 per stage) with a correct proof of that length;
 //              (b) every proof element x numeric catalogue, swap with the next element; (c) counter text mutations with
 //              unchanged elements; (d) replaced non-residue y' in {4y (valid), 4, y^2, m-y (squares / Jacobi +1 residues),
-//              least Jacobi -1 value}.
+//              least Jacobi -1 value, y+m}, proof recomputed; least Jacobi -1 value on a key without proof.
+//              tiny flavour: keys 704, 448 (quick) + 672, 704', 1024 (thorough); default counts: 448 (quick: S-1 vectors,
+//              first/last element per stage, short catalogue) + 704 and 2048 (thorough).
 //
 // Oracle (exact up to SHA-256/SHA3 coincidences, for every VERIF_SEED)
 //   * untampered: verify = true, decrypt = true and returns the plaintext, check() = true.
@@ -1069,6 +1073,25 @@ static void fam_nizk()
 		{
 			plans.push_back(NizkPlan{KeySpec{704, true, 0}, 2, 2, true, true});
 			plans.push_back(NizkPlan{KeySpec{2048, true, 0}, 1, 1, true, false});
+		}
+	}
+	// a key WITHOUT proof, y replaced by the least value of Jacobi symbol -1 and re-signed by the owner: only the Jacobi
+	// sanity test of check() can refuse it (y' of Jacobi +1 cannot be judged for such a key: nothing proves y is a non-residue)
+	{
+		std::string cell = "nizk/k704p0/jacobi-minus-one";
+		if (R->mine() && !R->out_of_time() && R->selected(cell))
+		{
+			Key &K = get_key(KeySpec{704, false, 0});
+			Z y2;
+			for (mpz_set_ui(y2.v, 2); mpz_jacobi(y2.v, K.sk->m) != -1; mpz_add_ui(y2.v, y2.v, 1)) ;
+			R->ok(true);
+			if (import_check(resign(K, K.sk->nizk, y2.v, 9300)))
+				R->viol("rabin/key/jacobi-minus-one-y-accepted", "key without proof, y' = " + zt(y2.v) + " (Jacobi symbol -1), re-signed: check() = true", cell);
+			else
+				tally.refused++;
+			R->ok(false);
+			if (!import_check(resign(K, K.sk->nizk, K.sk->y, 9301)))
+				R->viol("rabin/nizk/valid-proof-refused", "re-signed unaltered key without proof is refused", cell);
 		}
 	}
 	for (size_t ki = 0; ki < plans.size(); ki++)
